@@ -52,7 +52,9 @@ typedef struct {
     int nver;              /* version that is negotiated */
     uint16_t suite;        /* 0: client offers everything */
     int ca;                /* client authentication */
-    int res;               /* 0 full, 1 resumed by session id, 2 resumed by ticket / TLS 1.3 PSK */
+    int res;               /* 0 full, 1 resumed by session id, 2 resumed by ticket / TLS 1.3 PSK, 3 stale RFC 5077 ticket: the server
+                              rotated its ticket key after the priming connection, falls back to a full handshake and issues a
+                              NEW ticket that replaces the one the client's sslSessionId_t already holds */
     int early;             /* TLS 1.3 0-RTT: bytes of early data the resumed client sends */
     int ext;               /* client sends server_name (+ ALPN when compiled in), server has the matching callbacks */
 } scn_t;
@@ -63,6 +65,7 @@ static const scn_t S_tls12_psk[] = {
     { "psk-008c", MX_TLS12, MX_TLS12, MX_TLS12, 0x008c, 0, 0, 0 },
     { "psk-00af-sni", MX_TLS12, MX_TLS12, MX_TLS12, 0x00af, 0, 0, 0, 1 },
     { "psk-008d-ticket", MX_TLS12, MX_TLS12, MX_TLS12, 0x008d, 0, 2, 0 },
+    { "psk-008d-stale-ticket", MX_TLS12, MX_TLS12, MX_TLS12, 0x008d, 0, 3, 0 },
 };
 static const scn_t S_tls11_psk[] = {
     { "psk-008c", MX_TLS11, MX_TLS11, MX_TLS11, 0x008c, 0, 0, 0 },
@@ -74,6 +77,7 @@ static const scn_t S_dtls12_psk[] = {
     { "psk-00ae-resumed", MX_DTLS12, MX_DTLS12, MX_DTLS12, 0x00ae, 0, 1, 0 },
     { "psk-008c", MX_DTLS12, MX_DTLS12, MX_DTLS12, 0x008c, 0, 0, 0 },
     { "psk-00af-sni", MX_DTLS12, MX_DTLS12, MX_DTLS12, 0x00af, 0, 0, 0, 1 },
+    { "psk-00ae-stale-ticket", MX_DTLS12, MX_DTLS12, MX_DTLS12, 0x00ae, 0, 3, 0 },
 };
 static const scn_t S_dtls10_psk[] = {
     { "psk-008c", MX_DTLS10, MX_DTLS10, MX_DTLS10, 0x008c, 0, 0, 0 },
@@ -281,12 +285,24 @@ static void reset_world(int laneidx)
 }
 
 /* ------------------------------------------------------------- the prefix --- */
+/* key set of the stale-ticket lanes: PSK table + ONE ticket key, which is rotated between the priming and the main connection */
+static sslKeys_t *g_rot_keys; static int g_rot_state;
+static unsigned char g_tkname[2][16] = { "c08-ticket-key-1", "c08-ticket-key-2" };
+static void rot_keys_set(int want)
+{
+    static const unsigned char sym[2][32] = { { 1, 1, 2, 3, 5, 8, 13, 21 }, { 2, 7, 1, 8, 2, 8, 1, 8 } }, mac[2][32] = { { 3, 1, 4, 1, 5, 9, 2, 6 }, { 1, 4, 1, 4, 2, 1, 3, 5 } };
+    if (!g_rot_keys || g_rot_state == want) return;
+    if (g_rot_state) matrixSslDeleteSessionTicketKey(g_rot_keys, g_tkname[g_rot_state - 1]);
+    if (matrixSslLoadSessionTicketKeys(g_rot_keys, g_tkname[want - 1], sym[want - 1], 32, mac[want - 1], 32) < 0) { fprintf(stderr, "C08-HARNESS: loading ticket key %d failed\n", want); exit(3); }
+    g_rot_state = want;
+}
 static void lane_cfg(const scn_t *s, int role, mx_cfg *c)
 {
     memset(c, 0, sizeof *c);
     int v = role == MX_SERVER ? s->sver : s->cver;
     if (v < 0) { c->verMask = -v; c->ver = s->nver; } else c->ver = v;
-    c->suite = s->suite; c->clientAuth = s->ca; c->useTicket = (s->res == 2 && s->nver != MX_TLS13);
+    c->suite = s->suite; c->clientAuth = s->ca; c->useTicket = (s->res >= 2 && s->nver != MX_TLS13);
+    if (s->res == 3 && role == MX_SERVER) c->skeys = g_rot_keys;
 }
 static void c08_sni_cb(void *ssl, char *hostname, int32 hostnameLen, sslKeys_t **newKeys)
 {
@@ -370,11 +386,13 @@ static int run_prefix(mx_conn *k, const lane_t *L, int cut, sslSessionId_t *sid,
 {
     const scn_t *s = L->scn;
     if (s->res) {
+        if (s->res == 3) rot_keys_set(1);
         if (lane_open(k, s, sid, s->early) < 0) { mx_conn_close(k); return -1; }
         mx_conn_run(k, NULL, NULL, 300);
         int ok = mx_conn_established(k);
         mx_conn_close(k);
         if (!ok) return -2;
+        if (s->res == 3) rot_keys_set(2);     /* the ticket the client now holds can no longer be unlocked */
     }
     if (lane_open(k, s, sid, s->early) < 0) return -3;
     if (s->early && matrixSslGetMaxEarlyData(k->c.ssl) > 0) { unsigned char p[256]; mx_payload(p, s->early, 0xe0e0, 0, 7); mx_send(&k->c, p, s->early); }
@@ -741,7 +759,7 @@ static int lane_probe(lane_t *L, int li, rec_log *g)
     int rc = run_prefix(&k, L, 1000, sid, log_hook, g), ok = 0;
     if (rc == 0) {
         ok = mx_conn_established(&k);
-        if (ok && L->scn->res && !matrixSslIsResumedSession(k.s.ssl)) ok = -1;
+        if (ok && L->scn->res && (matrixSslIsResumedSession(k.s.ssl) != 0) != (L->scn->res != 3)) ok = -1;
         L->ncuts = k.delivered[L->role == MX_SERVER ? 0 : 1]; L->thash = g->h;
         mx_conn_close(&k);
     }
@@ -755,7 +773,7 @@ static void build_lanes(const target_t *t)
     for (int i = 0; i < t->nscn && g_nlanes < MAXLANES; i++) {
         lane_t *L = &g_lanes[g_nlanes]; memset(L, 0, sizeof *L); L->scn = &t->scn[i]; L->role = t->role; L->dtls = MX_IS_DTLS(t->scn[i].nver);
         int ok = lane_probe(L, g_nlanes, NULL);
-        if (ok != 1) { fprintf(stderr, "C08-HARNESS: honest run of lane %s/%s %s\n", t->name, L->scn->name, ok < 0 ? "did not resume" : "did not establish"); exit(3); }
+        if (ok != 1) { fprintf(stderr, "C08-HARNESS: honest run of lane %s/%s %s\n", t->name, L->scn->name, ok < 0 ? "did not resume (or resumed with a stale ticket)" : "did not establish"); exit(3); }
         if (L->ncuts > 250) L->ncuts = 250;
         g_nlanes++;
     }
@@ -783,6 +801,7 @@ static void c08_setup(const char *tname)
     g_memo_off = getenv("C08_NOMEMO") != NULL;
     mx_global_init();
     mx_keys_load();
+    g_rot_keys = mx_mkkeys(NULL, NULL, NULL);
     if (getenv("C08_GEN")) { gen_corpus(getenv("C08_GEN")); exit(0); }
     if (getenv("C08_SELFCHECK")) { selfcheck(); exit(0); }
     g_t = find_target(tname);
